@@ -127,12 +127,43 @@ def run_case(c):
     raise ValueError("unknown fn " + str(fn))
 
 
+def perturbed(c):
+    """the same structure with OTHER scalar arguments (axis, min_size, pbc, length, weight, basis pair)"""
+    d = json.loads(json.dumps(c))
+    if "axis" in d:
+        d["axis"] = (d["axis"] + 1) % 3
+    if "min_size" in d:
+        d["min_size"] = d["min_size"] * 2 + 0.37
+    if "length" in d:
+        d["length"] = d["length"] * 2 + 0.5
+    if "weight" in d:
+        d["weight"] = not d["weight"]
+    if "a" in d and "b" in d and isinstance(d["a"], int):
+        d["a"], d["b"] = (d["a"] + 1) % 3, (d["b"] + 1) % 3
+    if isinstance(d.get("pbc"), list):
+        d["pbc"] = [not x for x in d["pbc"]]
+    if "precision" in d:
+        d["precision"] = d["precision"] * 10
+    return d
+
+
 req = json.load(sys.stdin)
 results = []
 for c in req["cases"]:
     try:
         with time_limit(30):
+            first = None
+            if c["id"] % 3 == 0:
+                # process history: the helper is called with other scalar arguments on the same structure, then twice with
+                # the arguments of the case; the two answers must be identical (the measured one is the second)
+                try:
+                    run_case(perturbed(c))
+                except Exception:
+                    pass
+                first = json.dumps(run_case(c), sort_keys=True, default=str)
             r = run_case(c)
+            if first is not None:
+                r["history_same"] = bool(first == json.dumps(r, sort_keys=True, default=str))
     except Exception as e:  # noqa: BLE001
         r = {"error": type(e).__name__ + ": " + str(e)[:300]}
     r["id"] = c["id"]
